@@ -29,6 +29,8 @@ import (
 	"io"
 	"log"
 	"os"
+	"runtime"
+	"runtime/debug"
 	"runtime/pprof"
 	"sort"
 	"strings"
@@ -443,6 +445,12 @@ func main() {
 	t0 := time.Now()
 	o := core.ParseFlags(40, 780)
 	log.SetOutput(io.Discard)
+	// the recorder's container writer hands every block through three
+	// goroutines: on one P the hand-offs are direct (4x faster than with
+	// cross-thread wake-ups); fresh 190 KB caches per history make the GC the
+	// other cost.
+	runtime.GOMAXPROCS(1)
+	debug.SetGCPercent(800)
 	if pf := os.Getenv("C20_PROF"); pf != "" && o.Shard >= 0 {
 		f, _ := os.Create(pf)
 		pprof.StartCPUProfile(f)
@@ -568,13 +576,24 @@ func replay(path string) {
 	for _, b := range v.blocks {
 		fr := "??"
 		if b.frame >= 0 {
+			if b.frame < a.Replay.Config.PreN+a.Replay.Config.PreA-2 {
+				continue
+			}
 			fr = st.fname(b.track, b.frame)
+		} else if b.owner >= 0 {
+			fr = "?? (damaged " + st.fname(b.track, b.owner) + ")"
 		}
 		fmt.Printf("  block file=%d %s t=%dms key=%v len=%d -> %s\n", b.file, tname(b.track), b.time, b.key, len(b.data), fr)
 	}
 	for t := 0; t < 2; t++ {
 		if o.tracks[t] != nil {
-			fmt.Printf("  track %s: keyframe requests %d, GetPacket %v, ring after pre-roll %v, at end %v\n", tname(t), o.tracks[t].kfReq, o.tracks[t].gets, o.ring[t], o.ringEnd[t])
+			var gl []string
+			for _, g := range o.tracks[t].gets {
+				if g.step >= 0 {
+					gl = append(gl, fmt.Sprintf("step %d: seq %d -> %d bytes", g.step, g.seq, g.n))
+				}
+			}
+			fmt.Printf("  track %s: keyframe requests %d, GetPacket %v, ring (head,tail,len) after pre-roll %v, at end %v\n", tname(t), o.tracks[t].kfReq, gl, o.ring[t], o.ringEnd[t])
 		}
 	}
 	if len(v.viol) > 0 {
